@@ -370,10 +370,78 @@ def validate_ser_traces(path, tag, V, pid, mine):
     return accepted, rejected
 
 
+def corpus_check(tier, seed, V, tag, facts):
+    """Files written by the pinned build: read by the current build in both modes to the recorded value;
+    the old bytes and the bytes the current build writes for the same value are both streams of the
+    published format (decided by TLC on spec/Corpus.tla); the header hash words must be unchanged."""
+    import gzip
+    import random
+    entries = [json.loads(l) for l in gzip.open(os.path.join(ROOT, "corpus", "corpus.ndjson.gz"), "rt")]
+    entries = [e for e in entries if e["key"] in facts]
+    if tier == "quick":
+        rnd = random.Random(seed)
+        entries = rnd.sample(entries, min(1500, len(entries)))
+    de = replay([{"key": e["key"], "cmd": "de", "bytes": e["bytes"], "base": 0} for e in entries], tag + "_corpus_de")
+    se = replay([{"key": e["key"], "cmd": "ser", "v": e["v"], "sink": {"kind": "direct"}} for e in entries], tag + "_corpus_ser")
+    path = os.path.join(WORK, tag, "corpus.ndjson")
+    n = 0
+    with open(path, "w") as f:
+        for e, d, s in zip(entries, de, se):
+            key = e["key"]
+            V.count(("corpus", key, json.dumps(e["v"])), True)
+            rep = {"key": key, "v": e["v"], "file_bytes": e["bytes"][:80], "observed": {"de": d, "ser": s and {k: s[k] for k in s if k != "out"}}}
+            if d is None or "error" in (d or {}) or s is None:
+                continue
+            if "abort" in d:
+                V.violate(f"C06:corpus-abort:{key}", f"reading a file of {key} written by the pinned build killed the process", rep)
+                continue
+            for side in ("full", "eps"):
+                got = d[side]
+                if got["st"] != "ok":
+                    V.violate(f"C06:corpus-refused:{key}", f"a file of {key} written by the pinned build is no longer readable "
+                              f"({side}: {got['st']} {got.get('msg', '')})", rep)
+                elif got["val"] != [e["v"]]:
+                    V.violate(f"C06:corpus-value:{key}", f"a file of {key} written by the pinned build now reads to another value ({side})", rep)
+            if s.get("st") != "ok":
+                V.violate(f"C06:corpus-ser:{key}", f"the value of a corpus file of {key} no longer serializes: {s.get('st')}", rep)
+                continue
+            if s["out"][:29] != e["bytes"][:29]:
+                V.violate(f"C06:corpus-header:{key}", f"the header (version / hash words) the current build writes for {key} "
+                          f"differs from the pinned build's", rep)
+            f.write(json.dumps({"key": key, "t": e["t"], "v": e["v"], "nameLen": e["nameLen"], "bytes": e["bytes"], "now": s["out"]}) + "\n")
+            n += 1
+    cfg = os.path.join(WORK, tag, "corpus.cfg")
+    write_cfg(cfg, {"UsizeBytes": 8, "ZstUnit": 1, "TupleRangeConstTrue": False}, init="TInit", next_="TNext",
+              extra="POSTCONDITION Accepted")
+    # validate in rounds: a rejected entry is reported and cut out
+    lines = open(path).read().splitlines()
+    rounds = 0
+    while lines and rounds < 10:
+        rounds += 1
+        p = os.path.join(WORK, tag, f"corpus_{rounds}.ndjson")
+        open(p, "w").write("\n".join(lines) + "\n")
+        r = tlc("Corpus", cfg, tag, env={"TRACE": p}, workers=1, timeout=3000,
+                java_opts=["-Xss1g", "-Dtlc2.tool.queue.IStateQueue=StateDeque"])
+        V.add_tlc(r)
+        if "TRACE-REJECTED" not in r.out:
+            if r.error:
+                raise ToolError(f"corpus validation failed: {r.error}\n{r.out[-2000:]}")
+            break
+        m = re.search(r'"TRACE-REJECTED at line",\s*(\d+)', r.out)
+        i = int(m.group(1)) - 1
+        e = json.loads(lines[i])
+        V.violate(f"C06:corpus-format:{e['key']}", f"the bytes of a corpus file of {e['key']} (or the bytes the current build "
+                  f"writes for its value) are not the published encoding of that value", {"key": e["key"], "v": e["v"],
+                  "file": e["bytes"][:120], "now": e["now"][:120]})
+        lines = lines[i + 1:]
+    V.cov["corpus_entries_checked"] = n
+    V.cov["traces_validated_against_impl"] += n
+
+
 TIERS = {
     # typeset, value level, preceding lengths of the body-only runs
     "quick": ("quick1", 1, [0, 1, 2, 3, 5, 7, 9, 15]),
-    "thorough": ("all", 2, list(range(0, 17)) + [31, 33, 63, 65]),
+    "thorough": ("all", 1, [0, 1, 2, 3, 4, 5, 7, 8, 9, 15, 17, 31, 63]),
 }
 
 
@@ -394,6 +462,7 @@ def check(pid, tier, seed, V, facts, names_path):
         judge(pid, b, o, facts, V)
     trace_validation(pid, tier, seed, V, tag)
     if pid == "C06":
+        corpus_check(tier, seed, V, tag, facts)
         # the hash recipes are part of the published format: real preimage (recording Hasher) = specification's,
         # for every compiled type (the header words of the streams above are xxh3 of the specification's preimage)
         n = 0
